@@ -39,7 +39,7 @@ def check(mon, ev):
     dF = [f(c) for c in ev["dF"]]
     Fk, Fa, Fb, Ia, Ib = f(ev["Fk"]), f(ev["Fa"]), f(ev["Fb"]), f(ev["Ia"]), f(ev["Ib"])
     mon.case(ev["h"])
-    wit = lambda extra=None: dict({"form": form, "c": ev["c"], "knot": [ev["kx"], ev["ky"]], "a": ev["a"], "b": ev["b"],
+    wit = lambda extra=None: dict({"via": ev.get("via", "function"), "form": form, "c": ev["c"], "knot": [ev["kx"], ev["ky"]], "a": ev["a"], "b": ev["b"],
                                    "indefinite": ev["ind"], "integral": ev["F"], "c_v": cs, "knot_v": [kx, ky], "F_v": F}, **(extra or {}))
     if len(ind) != n + 2 or len(F) != n + 2 or len(dF) != n + 1:
         mon.violation("integral has the wrong degree", wit)
